@@ -528,7 +528,7 @@ def run(ctx):
     rhrecs = pmap(run_history, rh)
     for r in rhrecs:
         ctx.count(r["h"])
-    judge_histories(ctx, rhrecs, "judge seeded longer histories (HistTrace)", shard_size=600)
+    judge_histories(ctx, rhrecs, "judge seeded longer histories (HistTrace)", shard_size=100 if ctx.quick else 600)
     # 4. engines agree bit-for-bit off the lattice (two implementation outputs; no oracle)
     noff = 2000 if ctx.quick else 40000
     bad = [b for b in pmap(engines_agree_offlattice, [(ctx.seed * 1000003 + k,) for k in range(noff)]) if b]
